@@ -152,6 +152,12 @@ func checkMetricKeys(conf Config, schema base.LogSchema, orchestrationKeys []str
 		if slices.Index(orchestrationKeys, key) != -1 {
 			return fmt.Errorf("metricKeys[%d]: field '%s' cannot be listed in both .metricKeys and .orchestration/keys", i, key)
 		}
+		if slices.Index(conf.MetricKeys[:i], key) != -1 {
+			return fmt.Errorf("metricKeys[%d]: field '%s' is listed twice", i, key)
+		}
+		if err := base.VerifyMetricKeyName(key); err != nil {
+			return fmt.Errorf("metricKeys[%d]: %w", i, err)
+		}
 	}
 	return nil
 }
